@@ -448,6 +448,7 @@ func c20(c *core.Check) {
 	}
 
 	c20EscapeTerminator(c)
+	c20HexEscapesEndWithSpace(c)
 	r4 := c.Rule("R4", "serializeStringValue escapes \", \\, LF, CR, FF; serializeURL additionally ', space, TAB, ( and ); serializeName passes through only [A-Za-z0-9_-] and non-ASCII", 6)
 	// an escaped leading digit (or control character) of an identifier is a hexadecimal escape: it must end with a space
 	if si := p.Fn("css/parser", "serializeIdentifier"); si == nil {
@@ -703,5 +704,64 @@ func c20EscapeTerminator(c *core.Check) {
 	} else {
 		loops := core.Loops(fn)
 		r.Cond(len(loops) == 0, "css/parser.consumeEscape | no loop", p.Pos(fn.Pos()), "straight-line code: what the pattern matched is what is consumed", fmt.Sprintf("%d loop(s) in consumeEscape: white space after an escape may be consumed beyond the single terminator (`\"a\\A  b\"` would lose a space on re-parse)", len(loops)))
+	}
+}
+
+// c20HexEscapesEndWithSpace: every hexadecimal escape written by the string and url serializers is followed by its
+// terminating space, unconditionally.  The tokenizer consumes one white space after a hexadecimal escape whatever
+// follows: an escape written without it swallows a space or tab that is part of the value ("one\A  two").
+func c20HexEscapesEndWithSpace(c *core.Check) {
+	p := c.Prog
+	r := c.Rule("R6", "hexadecimal escapes are always terminated: every string constant of css/parser's serializers that spells a hexadecimal escape (backslash and hex digits) ends with a space — there is no escape constant without it, whose space would then depend on what follows", 3)
+	n := 0
+	for _, name := range []string{"serializeStringValue", "serializeURL", "endEscape"} {
+		fn := p.Fn("css/parser", name)
+		if fn == nil {
+			continue
+		}
+		core.Instrs(fn, func(in ssa.Instruction) {
+			for _, op := range in.Operands(nil) {
+				k, ok := (*op).(*ssa.Const)
+				if !ok || k.Value == nil || k.Value.Kind() != constant.String {
+					continue
+				}
+				s := constant.StringVal(k.Value)
+				if len(s) < 2 || s[0] != '\\' {
+					continue
+				}
+				hex := 0
+				for hex+1 < len(s) && strings.IndexByte("0123456789abcdefABCDEF", s[1+hex]) >= 0 {
+					hex++
+				}
+				if hex == 0 {
+					continue
+				}
+				n++
+				rest := s[1+hex:]
+				r.Cond(rest == " ", fmt.Sprintf("css/parser.%s | escape constant %q", name, s), p.Pos(in.Pos()), "ends with its terminating space", "the escape is written without its terminating space (added only before a hexadecimal digit): the tokenizer swallows the space or tab that follows it in the value (`\"one\\A  two\"` reads back as one, newline, two)")
+			}
+		})
+	}
+	// also functions called from serializeStringValue with such constants as arguments are covered above by name; any other
+	// helper receiving an escape constant is found through the callers' operands
+	if fn := p.Fn("css/parser", "serializeStringValue"); fn != nil {
+		core.Instrs(fn, func(in ssa.Instruction) {
+			call, ok := in.(*ssa.Call)
+			if !ok {
+				return
+			}
+			for _, a := range call.Call.Args {
+				if k, ok := a.(*ssa.Const); ok && k.Value != nil && k.Value.Kind() == constant.String {
+					s := constant.StringVal(k.Value)
+					if len(s) >= 2 && s[0] == '\\' && strings.IndexByte("0123456789abcdefABCDEF", s[1]) >= 0 && !strings.HasSuffix(s, " ") {
+						n++
+						r.Fail(fmt.Sprintf("css/parser.serializeStringValue | escape %q passed to %s", s, core.CalleeName(in)), p.Pos(in.Pos()), "an escape without its terminating space is handed to a helper: whether the space is written depends on what follows")
+					}
+				}
+			}
+		})
+	}
+	if n == 0 {
+		r.Anchor("css/parser: the hexadecimal escape constants of the serializers")
 	}
 }
